@@ -27,7 +27,9 @@ ASSUMPTIONS = ["reference: python set union / intersection and coordinate maps (
 LAB = {
     "x": {"inc": ("i", [10, 20, 30]), "shuf": ("i", [30, 10, 20]), "dec": ("i", [30, 20, 10]), "ovl": ("i", [20, 30, 40]),
           "nest": ("i", [20]), "disj": ("i", [40, 50]), "empty": ("i", []), "flt": ("f", [10.0, 20.0, 30.0]),
-          "fovl": ("f", [20.0, 30.5]), "inc4": ("i", [10, 20, 30, 40]), "p4": ("i", [10, 30, 20, 40]), "p4b": ("i", [40, 20, 30, 10]), "decovl": ("i", [40, 30, 20]), "touch": ("i", [30, 40, 50]), "hi1": ("i", [50])},
+          "fovl": ("f", [20.0, 30.5]), "inc4": ("i", [10, 20, 30, 40]), "p4": ("i", [10, 30, 20, 40]), "p4b": ("i", [40, 20, 30, 10]), "decovl": ("i", [40, 30, 20]), "touch": ("i", [30, 40, 50]), "hi1": ("i", [50]),
+          # integer labels that float32 cannot represent (dates written YYYYMMDD are of this size), next to a float axis sharing one of them
+          "big": ("i", [20200101, 20200103, 20200102]), "fbig": ("f", [0.5, 20200103.0])},
     "y": {"inc": ("O", ["a", "b"]), "dec": ("O", ["b", "a"]), "ovl": ("O", ["b", "c"]), "empty": ("O", []), "shuf": ("O", ["c", "a", "b"])},
 }
 
